@@ -491,6 +491,46 @@ class Flow:
                         out.append(("const", o[1].get("val"), o[1].get("text")))
         return out
 
+    def deep_origins(self, op, max_depth=60):
+        """Like origins(), but follows *every* argument of *every* call (containment/derivation closure): the set of
+        parameters, constants (promoted ones opened) and calls from which the operand's value can be derived."""
+        out = set()
+        seen = set()
+        argc = self.body.d["argc"]
+
+        def vl(l, d):
+            if l in seen or d > max_depth:
+                return
+            seen.add(l)
+            if 1 <= l <= argc:
+                out.add(("param", l))
+            for bi, si, _proj, payload in self.defs.get(l, []):
+                if si == "call":
+                    out.add(("call", callee_key(payload["f"]), bi))
+                    for a in payload["args"]:
+                        vo(a, d + 1)
+                else:
+                    for o in _rv_operands(payload):
+                        vo(o, d + 1)
+                    if payload["k"] in ("ref", "rawptr", "discr"):
+                        vl(payload["p"][0], d + 1)
+
+        def vo(o, d):
+            if o[0] in ("c", "m"):
+                vl(o[1][0], d)
+            elif o[0] == "k":
+                c = o[1]
+                if "fnref" in c:
+                    out.add(("fnref", callee_key(c["fnref"])))
+                    return
+                out.add(("const", c.get("val"), c.get("text")))
+                m = _PROMOTED.search(c.get("text") or "")
+                if m:
+                    for leaf in self._promoted_leaves(int(m.group(1))):
+                        out.add(leaf)
+        vo(op, 0)
+        return out
+
     def origin_calls(self, op, through=is_transparent):
         return {o[1] for o in self.origins(op, through) if o[0] == "call"}
 
